@@ -7,7 +7,9 @@ directories, C and C++ mixed, every node declaring exactly its direct
 dependencies in random order; static libraries carrying a system library
 (libm, through `libs=`) and a link option of their own.  Every DAG is configured
 under all four --enable/--disable-shared/static combinations with the real
-compilers and built with the real `make -k -j4`.
+compilers and built with the real `make -k -j4`; one mode per DAG in quick (every mode in
+thorough, gcc) is also configured for the Ninja back end and built by the reference Ninja
+evaluator (vf/ref/refninja.py) running the real compilers.
 
 Oracles (none uses bfg9000 code):
   * exit status of configure / make; every declared output exists;
@@ -45,7 +47,9 @@ RULE = ('7 hand-written DAGs (static chain with a shortcut edge, whole archive '
         'need only one archive member, C/C++ mix, declared libs in random order, '
         'libm via libs=, --defsym link options, version/soversion, static archives '
         'sharing a base name across directories) x 4 library modes x compiler (gcc; '
-        'clang too on every third DAG in thorough); distinct = (DAG, mode, compiler); '
+        'clang too on every third DAG in thorough) x back end (make; ninja through the reference '
+        'evaluator for one mode per DAG in quick, all modes in thorough); distinct = (DAG, mode, '
+        'compiler, back end); '
         'non-trivial = dependency depth >= 3 and outputs in >= 2 directories')
 ASSUMPTIONS = [
     'gcc/g++ 12, clang 14, GNU ld 2.40, GNU make 4.3, glibc ld.so, readelf, nm are the '
@@ -75,7 +79,7 @@ def floors(tier):
     # about 40 % of what seeds 0-4 give on the unchanged tree (where the known
     # ordering defect already costs some builds)
     if tier == 'quick':
-        return {'configure:ok': 40, 'build:ok': 20, 'exe:run-builddir': 30,
+        return {'configure:ok': 40, 'build:ok': 20, 'build:ok:ninja': 5, 'exe:run-builddir': 30,
                 'exe:run-owndir': 30, 'exe:run-elsewhere': 30, 'exe:run-moved': 90,
                 'builddir:moved': 40, 'elf:inspected': 80, 'soname:checked': 40,
                 'rpath:origin-entry': 60, 'rpath:needed-resolved': 60,
@@ -85,7 +89,7 @@ def floors(tier):
                 'sysm:needed-libm': 4, 'versioned:symlink-checked': 8,
                 'both-disabled:built': 3, 'both-disabled:rejected': 2,
                 'distinct_nontrivial': 30}
-    return {'configure:ok': 200, 'build:ok': 150, 'exe:run-builddir': 300,
+    return {'configure:ok': 200, 'build:ok': 150, 'build:ok:ninja': 80, 'exe:run-builddir': 300,
             'exe:run-owndir': 300, 'exe:run-elsewhere': 300, 'exe:run-moved': 900,
             'builddir:moved': 200, 'elf:inspected': 800, 'soname:checked': 500,
             'rpath:origin-entry': 900, 'rpath:needed-resolved': 800,
@@ -522,12 +526,13 @@ def run_case(case):
     prj = Project(case)
     mode = prj.mode
     compiler = case['compiler']
+    backend = case.get('backend', 'make')
     mname = gen.mode_name(mode)
     dag_digest = core.digest(case['nodes'])
     depth = gen.depth(case)
     outdirs = {os.path.dirname(p) for p in prj.outputs}
-    res.key([dag_digest, mname, compiler], depth >= 3 and len(outdirs) >= 2)
-    res.classes.update(['mode:' + mname, 'compiler:' + compiler])
+    res.key([dag_digest, mname, compiler, backend], depth >= 3 and len(outdirs) >= 2)
+    res.classes.update(['mode:' + mname, 'compiler:' + compiler, 'backend:' + backend])
     for n in case['nodes']:
         res.classes.add('kind:' + n['kind'])
         for tu in n['tus']:
@@ -536,7 +541,7 @@ def run_case(case):
             res.classes.add('edge:%s->%s' % (n['kind'], prj.nodes[d]['kind']))
     _, printed = gen.values(case)
     base_wit = {'dag': case['dag'], 'mode': mname, 'compiler': compiler,
-                'nodes': len(case['nodes'])}
+                'backend': backend, 'nodes': len(case['nodes'])}
     seen_mech = set()
 
     def violate(mech, wit):
@@ -562,8 +567,9 @@ def run_case(case):
         tc = proj.real_toolchain_env(log=log, compiler=compiler, wrap=True)
         tc['VSTUB_ENVKEYS'] = 'LD_LIBRARY_PATH'
         env = core.base_env(extra=tc)
-        rc, out = proj.configure(src, bld, 'make', args=gen.mode_args(mode), env=env)
+        rc, out = proj.configure(src, bld, backend, args=gen.mode_args(mode), env=env)
         res.ev('configure')
+        res.ev('configure:' + backend)
         if rc != 0:
             label = classify_configure(out)
             if mode == (False, False) and gen.has_library_nodes(case) and \
@@ -581,8 +587,9 @@ def run_case(case):
         if mode == (False, False):
             res.ev('both-disabled:configured')
 
-        rc, out = proj.build(bld, 'make', targets=['all'], env=env,
-                             extra=['-k', '-j4'], timeout=600)
+        rc, out = proj.build(bld, backend, targets=['all'], env=env,
+                             extra=(['-k', '-j4'] if backend == 'make' else ['-k', '0']),
+                             timeout=600)
         res.ev('build')
         missing = [p for p in sorted(prj.outputs) if
                    not os.path.isfile(os.path.join(bld, p))]
@@ -597,6 +604,7 @@ def run_case(case):
                          'target': os.readlink(full) if os.path.islink(full) else None})
         if rc == 0 and not missing:
             res.ev('build:ok')
+            res.ev('build:ok:' + backend)
             if mode == (False, False):
                 res.ev('both-disabled:built')
         else:
@@ -744,6 +752,7 @@ def run_case(case):
 
         if res.sample is None:
             res.sample = {'dag': case['dag'], 'mode': mname, 'compiler': compiler,
+                          'backend': backend,
                           'outputs': sorted(prj.outputs),
                           'toolchain_calibration': caps,
                           'expected_output': {prj.nodes[i]['name']: v
